@@ -135,6 +135,16 @@ func init() {
 			return a
 		},
 		intLim: true,
+		post: func(ctx *Ctx, _ []*sem.Case, o *Outcome) {
+			// validate the ORACLE: the reference model vs the independent Python jsonschema package on sampled pairs
+			cov, inc := modelCrossCheck(ctx, ctx.N(120, 3000))
+			for k, v := range cov {
+				o.Coverage[k] = v
+			}
+			if inc != "" && o.Inconclusive == "" {
+				o.Inconclusive = inc
+			}
+		},
 		nQuick: 500, nThor: 8000, valid: 8, perSite: 2, maxDocs: 40, minDec: 2000,
 		rule: "random schemas over the supported feature space (objects, nesting<=3, arrays, formats, enums, refs, additionalProperties); documents valid by construction (maximal, minimal, random; boundary-seeking) plus model-accepted variants; each is executed by the compiled generated code; deciding observation = verdict ok AND path-wise comparison of json.Marshal(&v) and json.Marshal(v) with the input; distinct_nontrivial = distinct (schema signature, document class) pairs with >=1 deciding observation",
 	})
